@@ -73,15 +73,15 @@ Proof. exact saml_spec_conforms. Qed.
     confirmation, the querying party as the only audience, the subject's user name, no destination, recipient or
     authentication statement *)
 Theorem C12_built_response : forall reqid issuer sp email full given sur userid username id1 id2 rest issue until,
-  exists d, built_value "makeAttributeQueryResponse" None
-              [DStr reqid; DStr issuer; DStr sp; attributes_rec email full given sur userid username []; DNil; DStr (b "f"); DNil] (id1 :: id2 :: rest) issue until = Some (d, rest) /\
+  built_sat "makeAttributeQueryResponse" None
+              [DStr reqid; DStr issuer; DStr sp; attributes_rec email full given sur userid username []; DNil; DStr (b "f"); DNil] (id1 :: id2 :: rest) issue until (fun d r => r = rest /\
     at_ d ["InResponseTo"%string] = Some (DStr reqid) /\ dget d (sc_data ++ [PField "InResponseTo"]) = Some (DStr reqid) /\
     at_ d ["Destination"%string] = None /\ dget d (sc_data ++ [PField "Recipient"]) = None /\
     at_ d ["Issuer"; "Text"]%string = Some (DStr issuer) /\ at_ d ["Assertion"; "Issuer"; "Text"]%string = Some (DStr issuer) /\
     dget d [PField "Assertion"; PField "Conditions"; PField "AudienceRestriction"; PIndex 0; PField "Audience"] = Some (DList [DStr sp]) /\
     at_ d ["Assertion"; "Subject"; "NameID"; "Text"]%string = Some (DStr username) /\
     at_ d ["Assertion"; "AuthnStatement"]%string = None /\
-    at_ d ["Assertion"; "Conditions"; "NotOnOrAfter"]%string = Some (DStr until).
+    at_ d ["Assertion"; "Conditions"; "NotOnOrAfter"]%string = Some (DStr until)).
 Proof. exact attrquery_response_fields. Qed.
 
 Print Assumptions C12_answered.
